@@ -664,6 +664,60 @@ func frames() {
 	vrt.Observe("%s->%d: reply=%d err=%d ran=%d", label, tg.action, nReply, nErr, w.Root.Total())
 }
 
+// lentTwoCallers: clients B and C call the object client A lent to the service at the
+// same time: both relayed calls are waiting at A's connection when its object gets to
+// them. Each caller receives its own result, each method body runs once (seed C04-19
+// served every queued message in its own goroutine sharing the loop variable: the second
+// call ran twice, the first never).
+func lentTwoCallers() {
+	w := fx.Start(bus.Yes{})
+	cA, cB, cC := w.MustConnect(), w.MustConnect(), w.MustConnect()
+	pA, pB, pC := cA.Probe(1), cB.Probe(1), cC.Probe(1)
+	mine := probe.New("lent")
+	svcA := pA.Proxy().ProxyService(cA.Session())
+	lent, err := probe.CreateProbe(cA.Session(), svcA, mine)
+	if err != nil {
+		vrt.Failf("harness/create", "%v", err)
+		return
+	}
+	if err := pA.Adopt(lent); err != nil {
+		vrt.Failf("harness/adopt", "%v", err)
+		return
+	}
+	oB, errB := pB.Adopted()
+	oC, errC := pC.Adopted()
+	if errB != nil || errC != nil {
+		vrt.Failf("harness/adopted", "%v %v", errB, errC)
+		return
+	}
+	vrt.Quiesce()
+	vrt.Explore()
+	var v5, v6 int32
+	var e5, e6 error
+	wb := vrt.GoWorker("B", func() { v5, e5 = oB.Echo(5) })
+	wc := vrt.GoWorker("C", func() { v6, e6 = oC.Echo(6) })
+	vrt.Quiesce()
+	for _, t := range []*vrt.Thread{wb, wc} {
+		if !t.Done() {
+			vrt.Failf("hang/lent-object-two-callers", "the call of client %s on the object lent by client A never returned while another client called the same object; blocked on %s (the object ran echo(5) %d times, echo(6) %d times)", t.Name, t.BlockedOn(), mine.Calls["echo(5)"], mine.Calls["echo(6)"])
+		}
+	}
+	vrt.Freeze()
+	if wb.Done() && (e5 != nil || v5 != probe.EchoResult(5)) {
+		vrt.Failf("wrong-result/lent-object-two-callers", "echo(5) returned %d, %v", v5, e5)
+	}
+	if wc.Done() && (e6 != nil || v6 != probe.EchoResult(6)) {
+		vrt.Failf("wrong-result/lent-object-two-callers", "echo(6) returned %d, %v", v6, e6)
+	}
+	if mine.Calls["echo(5)"] > 1 || mine.Calls["echo(6)"] > 1 || (wb.Done() && wc.Done() && (mine.Calls["echo(5)"] != 1 || mine.Calls["echo(6)"] != 1)) {
+		vrt.Failf("execution-count/lent-object-two-callers", "the lent object ran echo(5) %d times and echo(6) %d times", mine.Calls["echo(5)"], mine.Calls["echo(6)"])
+	}
+	checkWire("connA", cA, nil)
+	checkWire("connB", cB, nil)
+	checkWire("connC", cC, nil)
+	vrt.Observe("v5=%d v6=%d", v5, v6)
+}
+
 func init() {
 	reg.Register(&reg.Scenario{Property: "C04", Name: "backlog-behind-busy-object", Body: fx.Backlog(12), Quick: 1, Thorough: 2,
 		Doc: "an object busy in a gated call; one connection pipelines terminate() + 12 calls (more than its mailbox holds), a second connection one more; then the gate opens"})
@@ -683,6 +737,8 @@ func init() {
 		Doc: "A: a call whose answer is exactly MaxPayloadSize bytes || B (other connection): a call whose answer is one byte larger: each gets exactly one outcome, the service keeps serving"})
 	reg.Register(&reg.Scenario{Property: "C04", Name: "two-clients-one-connection", Body: twoClients, Quick: 1, Thorough: 3,
 		Doc: "two client objects on one connection (equal message counters) call the same action of two objects; the later call is answered first"})
+	reg.Register(&reg.Scenario{Property: "C04", Name: "lent-client-object-two-callers", Body: lentTwoCallers, Quick: 2, Thorough: 3,
+		Doc: "clients B and C call the object lent by client A at the same time (both relayed calls wait at A's connection): own results, each body once, no caller left waiting"})
 	reg.Register(&reg.Scenario{Property: "C04", Name: "lent-client-object", Body: lentObject, Quick: 2, Thorough: 3,
 		Doc: "client A lends an object it hosts to the service (adopt); client B obtains it (adopted) and calls echo(5) and echo(-7) on it through the service's relay while A calls the service: results and errors come back to their own callers"})
 	reg.Register(&reg.Scenario{Property: "C04", Name: "lent-client-object-subscribe", Body: lentSubscribe, Quick: 1, Thorough: 2,
